@@ -199,8 +199,28 @@ func VerifC03_Operations() {
 		// subscription: a later privileged write is pushed iff permitted
 		sub, serr := acting.Subscribe(query.New("t:a/"))
 		rt.Assert(serr == nil, "subscribe/ok")
-		rt.Assert(privileged.Put(stored) == nil, "subscribe/privileged-write")
-		rt.Assert((len(sub.Feed) == 1) == !denied, "subscribe/pushed-iff-permitted")
+		// ... and so is every later change of the record: expiry, flags, delete
+		want := 0
+		switch rt.Choice("subscribed-change", 4) {
+		case 0:
+			rt.Assert(privileged.Put(stored) == nil, "subscribe/privileged-write")
+			want = 1
+		case 1:
+			rt.Assert(privileged.SetAbsoluteExpiry("t:a/k", time.Now().Unix()+100) == nil, "subscribe/privileged-expiry")
+			want = 1
+		case 2:
+			rt.Assert(privileged.Delete("t:a/k") == nil, "subscribe/privileged-delete")
+			want = 1
+		case 3:
+			rt.Assert(privileged.Put(stored) == nil, "subscribe/privileged-write")
+			rt.Assert(privileged.Delete("t:a/k") == nil, "subscribe/privileged-delete")
+			want = 2
+		}
+		if denied {
+			rt.Assert(len(sub.Feed) == 0, "subscribe/never-pushed-to-a-denied-subscription")
+		} else {
+			rt.Assert(len(sub.Feed) == want, "subscribe/pushed-iff-permitted")
+		}
 		rt.Reach("op-subscribe")
 		return
 	}
